@@ -127,7 +127,11 @@ def index():
              'scratch worktree and runs the check against it (`VERIF_REPO`).', '',
              '| id | property | what it needs to manifest | verified | caught by (tier: new signatures) | first signature |',
              '|---|---|---|---|---|---|']
-    for sid in sorted(os.listdir(SEEDED)):
+    def order(sid):
+        a, _, b = sid.partition('-m')
+        return (a, int(b)) if b.isdigit() else (a, 0)
+    stats = {'total': 0, 'neutralised': 0, 'own_quick': 0, 'other_or_thorough': 0, 'missed': 0}
+    for sid in sorted(os.listdir(SEEDED), key=order):
         mp = os.path.join(SEEDED, sid, 'meta.json')
         if not os.path.exists(mp):
             continue
@@ -138,9 +142,24 @@ def index():
             caught.append(f"{k}: {'caught ' + str(v['distinct_new_signatures']) if v['caught'] else 'MISSED'}")
             if v['caught'] and not first:
                 first = json.dumps(v['signatures'][0], sort_keys=True)[:140]
+        stats['total'] += 1
+        checks = m.get('checks', {})
+        own = checks.get(f"{m['property']}:quick", {}).get('caught')
+        if str(m.get('status', '')).startswith('neutralised'):
+            stats['neutralised'] += 1
+            caught.append('NEUTRALISED by a repair (see meta.json)')
+        elif own:
+            stats['own_quick'] += 1
+        elif any(v.get('caught') for v in checks.values()):
+            stats['other_or_thorough'] += 1
+        else:
+            stats['missed'] += 1
         needs = str(m.get('what_it_needs_to_manifest', ''))[:160].replace('|', '/').replace('\n', ' ')
         lines.append(f"| {sid} | {m['property']} | {needs} | {m.get('verified', {}).get('ok')} | "
                      f"{'; '.join(caught)} | `{first}` |")
+    lines += ['', f"Totals: {stats['total']} changes; {stats['own_quick']} caught by the quick tier of their own property's check, "
+                  f"{stats['other_or_thorough']} only by another property's check or by the thorough tier, {stats['missed']} by none "
+                  f"(reasons in the notes below), {stats['neutralised']} neutralised by later repairs of the unchanged tree."]
     notes = os.path.join(SEEDED, 'NOTES.md')
     if os.path.exists(notes):
         lines += ['', open(notes).read()]
